@@ -7,13 +7,17 @@
 (*   Convert(d)        parse + render in one call                           *)
 (*   ParseRender(d)    Parse, keep the tree, Render it                      *)
 (*   ReRender(d)       Render again the tree kept for d                     *)
-(* each either on the long-lived instance or (fresh = TRUE) on a new one.   *)
+(* each either on the long-lived instance or (fresh = TRUE) on a new one;   *)
+(*   Foreign(d)        another instance, built from the same package-level  *)
+(*                     extension values with every option flipped, converts *)
+(*                     d - instances share nothing that a conversion writes.*)
 (* The output is modelled as the pair (document, context the parse saw,     *)
 (* number of earlier renders of that tree); in "spec" mode the context is   *)
 (* empty and rendering leaves the tree as it was, so the pair depends on    *)
 (* the document only.  Negative controls: "LeakyContext" (what earlier      *)
 (* documents defined stays visible), "RenderMutates" (each render changes   *)
-(* the tree it renders).                                                    *)
+(* the tree it renders), "SharedSingleton" (an option set on one instance    *)
+(* reaches the others through a shared extension object).                   *)
 (* TLC also prints every history: they are replayed on real instances.      *)
 (***************************************************************************)
 EXTENDS Integers, Sequences, FiniteSets, TLC, Json
@@ -21,14 +25,15 @@ CONSTANTS Docs, MaxLen, Emit, Mode
 VARIABLES seen,    \* documents the long-lived instance has parsed so far
           kept,    \* kept[d] = number of times the tree kept for d has been rendered, or -1
           hist,    \* the history of calls
-          outs     \* outs[d] = set of outputs observed for d
-vars == <<seen, kept, hist, outs>>
+          outs,    \* outs[d] = set of outputs observed for d
+          taint    \* a foreign instance has converted something
+vars == <<seen, kept, hist, outs, taint>>
 
 Ctx(fresh) == IF Mode = "LeakyContext" /\ ~fresh THEN seen ELSE {}
 Wear(n) == IF Mode = "RenderMutates" THEN n ELSE 0
-Output(d, ctx, n) == <<d, ctx, Wear(n)>>
+Output(d, ctx, n) == <<d, ctx, Wear(n), Mode = "SharedSingleton" /\ taint>>
 
-Init == seen = {} /\ kept = [d \in Docs |-> -1] /\ hist = <<>> /\ outs = [d \in Docs |-> {}]
+Init == seen = {} /\ kept = [d \in Docs |-> -1] /\ hist = <<>> /\ outs = [d \in Docs |-> {}] /\ taint = FALSE
 
 Log(op, d, fresh) == /\ hist' = Append(hist, <<op, d, fresh>>)
                      /\ (Emit => PrintT(ToJson(hist')))
@@ -37,7 +42,7 @@ Convert(d, fresh) ==
   /\ Len(hist) < MaxLen
   /\ outs' = [outs EXCEPT ![d] = @ \cup {Output(d, Ctx(fresh), 0)}]
   /\ seen' = IF fresh THEN seen ELSE seen \cup {d}
-  /\ UNCHANGED kept
+  /\ UNCHANGED <<kept, taint>>
   /\ Log("convert", d, fresh)
 
 ParseRender(d, fresh) ==
@@ -45,16 +50,23 @@ ParseRender(d, fresh) ==
   /\ outs' = [outs EXCEPT ![d] = @ \cup {Output(d, Ctx(fresh), 0)}]
   /\ seen' = IF fresh THEN seen ELSE seen \cup {d}
   /\ kept' = [kept EXCEPT ![d] = 1]
+  /\ UNCHANGED taint
   /\ Log("parse+render", d, fresh)
 
 ReRender(d) ==
   /\ Len(hist) < MaxLen /\ kept[d] >= 1
   /\ outs' = [outs EXCEPT ![d] = @ \cup {Output(d, {}, kept[d])}]
   /\ kept' = [kept EXCEPT ![d] = @ + 1]
-  /\ UNCHANGED seen
+  /\ UNCHANGED <<seen, taint>>
   /\ Log("rerender", d, FALSE)
 
-Next == \E d \in Docs : (\E f \in BOOLEAN : Convert(d, f) \/ ParseRender(d, f)) \/ ReRender(d)
+Foreign(d) ==
+  /\ Len(hist) < MaxLen /\ hist # <<>> /\ hist[Len(hist)][1] # "foreign"
+  /\ taint' = TRUE
+  /\ UNCHANGED <<seen, kept, outs>>
+  /\ Log("foreign", d, TRUE)
+
+Next == \E d \in Docs : (\E f \in BOOLEAN : Convert(d, f) \/ ParseRender(d, f)) \/ ReRender(d) \/ Foreign(d)
 Spec == Init /\ [][Next]_vars
 
 \* the output is a pure function of the document (configuration is fixed)
